@@ -150,7 +150,14 @@ def run_case(ctx, case):
   pl, tfl = st["pl"], st["tfl"]
   rng = np.random.RandomState(case["seed"])
   if case["kind"] == "plain":
-    vk, v, k, mode, cmin, cmax, dv, w, red = _args(rng)
+    if case.get("explicit"):
+      # a stored witness: the arguments themselves (independent of later changes to the generator)
+      ex = case["explicit"]
+      vk, v, k, mode, cmin, cmax, dv, red = "explicit", np.asarray(ex["values"], dtype=ex.get("dtype", "float64")), ex["num_keypoints"], ex["mode"], \
+          ex.get("clip_min"), ex.get("clip_max"), ex.get("default_value"), ex.get("reduction", "mean")
+      w = None if ex.get("weights") is None else np.asarray(ex["weights"], dtype=np.float64)
+    else:
+      vk, v, k, mode, cmin, cmax, dv, w, red = _args(rng)
     distinct, vv = _distinct(v, cmin, cmax, dv)
     info = {"values": core.brief(v.tolist(), 30), "num_keypoints": k, "mode": mode, "clip_min": cmin, "clip_max": cmax,
             "default_value": dv, "weights": None if w is None else core.brief(w.tolist(), 30), "reduction": red}
